@@ -1,6 +1,7 @@
 """C11 — carbon copies are unwrapped only when the outer stanza comes from the own bare JID.
 Spec: spec/Carbons.tla (+CarbonsGen, CarbonsTrace). Driver: qxv carbons."""
 import vf
+from props import replaycache
 
 LEVEL = "model_checking"
 
@@ -15,7 +16,7 @@ def run(chk, replay=None):
     chk.mc(vf.tlc_mc("Carbons.tla", "Carbons.cfg", workers=4), "Carbons.cfg")
     # 2. behaviours
     if replay:
-        behs = [b for b in vf.read_ndjson(replay) if "steps" in b]
+        behs = [b for b in replaycache.read(replay) if "steps" in b]
     else:
         tour, st1 = vf.tlc_gen("CarbonsGen.tla", "CarbonsGenTour.cfg")
         allp, st2 = vf.tlc_gen("CarbonsGen.tla", "CarbonsGenAll.cfg" if quick else "CarbonsGenAll4.cfg")
